@@ -329,7 +329,7 @@ fn gen_c20(tier: &str, rng: &mut Rng, emit: &mut dyn FnMut(Op)) {
 fn size_family(emit: &mut dyn FnMut(Op)) {
     for kind in [b'f', b'd'] {
         let mut args: Vec<Vec<u8>> = vec![b"daaa-1.0\0+COMMENT\0c\0+CONTENTS\0x\0+DESC\0d".to_vec()];
-        for i in 0..(if kind == b'f' { 20000 } else { 8000 }) {
+        for i in 0..(if kind == b'f' { 5000 } else { 2500 }) {
             let mut a = vec![kind];
             a.extend(format!("stray{:05}", i).as_bytes());
             args.push(a);
